@@ -603,6 +603,12 @@ Section LoopFacts.
   Qed.
 End LoopFacts.
 
+(* an rpc generated as an internal method keeps the defaults of its service-config entry *)
+Lemma internal_methods_keep_defaults : forall internal cfg service method,
+  row_of internal cfg service method = emit cfg service method /\
+  row_of internal cfg service method = row_of false cfg service method.
+Proof. intros. split; reflexivity. Qed.
+
 (* ------------------------------------------------------------------ at the level of one client call *)
 Section CallFacts.
   Variable jitter : nat -> Q -> Q.
